@@ -13,7 +13,7 @@ TRANSLATE = ["tables"]
 TRANSLATOR_FALLBACK = True
 RULE = ("for each of the 14 likelihood types: random lens configuration (IFU flag, alpha/beta scaling "
         "properties, global Gaussian LOS population or none, 1-d kinematic scaling grid, lambda_mst "
-        "distribution flag) x random sharp hyper-parameters x random distances; streams: above the 1e-4 "
+        "distribution flag) x random sharp hyper-parameters x random distances; streams (incl. `signs`: product above the floor with one factor tiny or negative): above the 1e-4 "
         "floor (oracle + correspondence), neutral values, degenerate (lambda,kappa) pairs, below the floor "
         "(correspondence only); distinct = (type, mst_ifu, los, scaling, alpha, beta, lambda_sampling) "
         "signature x stream")
@@ -73,7 +73,8 @@ def lens_kappa(cfg, h):
 
 
 def gen_case(rng, ltype, stream):
-    cfg, h = lc.gen_lens_cfg(rng, ltype, sharp=True, with_los=(False if stream == "neutral" else None))
+    cfg, h = lc.gen_lens_cfg(rng, ltype, sharp=True,
+                             with_los=(False if stream == "neutral" else True if stream == "signs" else None))
     data = {} if ltype == "DdtDdKDE" else lc.data_kwargs(rng, ltype)
     lc.finish_scaling(rng, cfg, data, ltype)
     if stream == "neutral":
@@ -85,6 +86,20 @@ def gen_case(rng, ltype, stream):
         h["kwargs_lens"][key] = rng.choice([1e-5, -0.3, 5e-5, 0.0])
         h["kwargs_lens"].pop("alpha_lambda", None)
         h["kwargs_lens"].pop("beta_lambda", None)
+    if stream == "signs":
+        # the product lambda*(1-kappa) is above the floor although ONE factor alone is below it (tiny or negative):
+        # the rescaling is by the product (displace_formula needs only the product above the floor)
+        pairs = [(-0.5, 3.0), (-2.0, 1.4), (8e-5, -0.5), (9e-5, -1.0), (5e-5, -9.0), (3.0, 0.99997), (0.9, 0.99985)]
+        if ltype == "DSPL":
+            pairs = [p for p in pairs if p[0] > 0]      # a negative lambda makes the DSPL data likelihood complex
+        lam, kap = rng.choice(pairs)
+        key = "lambda_ifu" if cfg["mst_ifu"] else "lambda_mst"
+        h["kwargs_lens"][key] = lam
+        h["kwargs_lens"].pop("alpha_lambda", None)
+        h["kwargs_lens"].pop("beta_lambda", None)
+        idx = cfg["global_los_distribution"]
+        cfg["los_distributions"][idx] = "GAUSSIAN"
+        h["kwargs_los"][idx] = dict(mean=kap, sigma=0.0)
     if ltype == "DSPL" and rng.random() < 0.5:
         h["kwargs_lens"]["gamma_pl_list"] = [rng.uniform(1.8, 2.2) for _ in range(3)]
         cfg["gamma_pl_index"] = rng.randrange(3)
@@ -197,7 +212,7 @@ def run(ctx, res):
     cases = []
     for lt in lc.TYPES:
         for t in range(per):
-            stream = ["main", "main", "main", "degenerate", "neutral", "floor"][t % 6]
+            stream = ["main", "main", "main", "degenerate", "neutral", "floor", "signs"][t % 7]
             cases.append(gen_case(rng, lt, stream))
     lines, impl = [], []
     for case in cases:
